@@ -53,6 +53,7 @@ let str_codec = { parse = (fun s -> if s = "~" then "" else s); show = (fun s ->
 let split_on c s = if s = "" then [] else String.split_on_char c s
 
 exception Fail of string
+exception Stop_case        (* the documented panic of Set on a zero Map: the case ends here *)
 let ok = function M.Ok a -> a | M.Panic -> raise (Fail "PANIC") | M.OutOfFuel -> raise (Fail "FUEL") | M.BadOracle -> raise (Fail "ORACLE")
 
 let key_arg arg = match String.index_opt arg '=' with Some i -> String.sub arg (i + 1) (String.length arg - i - 1) | None -> "0"
@@ -62,6 +63,132 @@ let parse_op op =
   let op' = if String.length op > 0 && op.[0] = '@' then String.sub op 1 (String.length op - 1) else op in
   if op' = "" then ('?', "") else (op'.[0], String.sub op' 1 (String.length op' - 1))
 
+(* ------------------------------------------------------------------ big maps: digest, LCG, orders
+   (mirrors harness/cmd/omaptrace/scale.go) *)
+
+let dg_p1 = 2147483647 and dg_m1 = 1000003 and dg_p2 = 2147483629 and dg_m2 = 1000033
+type dig = { mutable h1 : int; mutable h2 : int }
+let dnew () = { h1 = 0; h2 = 0 }
+let dadd d x =
+  let v1 = ((x mod dg_p1) + dg_p1) mod dg_p1 and v2 = ((x mod dg_p2) + dg_p2) mod dg_p2 in
+  d.h1 <- (d.h1 * dg_m1 + v1 + 12345) mod dg_p1;
+  d.h2 <- (d.h2 * dg_m2 + v2 + 54321) mod dg_p2
+let dadd_str d s = String.iter (fun c -> dadd d (Char.code c)) s; dadd d (-1)
+let dstr d = Printf.sprintf "%08x%08x" d.h1 d.h2
+let digest_of l = let d = dnew () in List.iter (dadd d) l; dstr d
+
+let plain_max = 200
+let zigzag = "npppnnpn"
+let fmt_ints l =
+  let n = List.length l in
+  if n <= plain_max then str_ints l
+  else Printf.sprintf "#%d~%d~%d~%s" n (List.hd l) (List.nth l (n - 1)) (digest_of l)
+
+let perm_of n seed =
+  let p = Array.init n (fun i -> i) in
+  let x = ref (((seed mod 2147483648) + 2147483648) mod 2147483648) in
+  for i = n - 1 downto 1 do
+    x := (!x * 1103515245 + 12345) mod 2147483648;
+    let j = (!x lsr 8) mod (i + 1) in
+    let t = p.(i) in p.(i) <- p.(j); p.(j) <- t
+  done;
+  Array.to_list p
+
+let rec order_idx pat n seed : int list option =
+  match pat with
+  | 'a' -> Some (List.init n (fun i -> i))
+  | 'd' -> Some (List.init n (fun i -> n - 1 - i))
+  | 'z' ->
+    let out = ref [] and lo = ref 0 and hi = ref (n - 1) in
+    while !lo <= !hi do
+      out := !lo :: !out;
+      if !lo <> !hi then out := !hi :: !out;
+      incr lo; decr hi
+    done;
+    Some (List.rev !out)
+  | 'i' -> (match order_idx 'z' n seed with Some l -> Some (List.rev l) | None -> None)
+  | 'r' -> Some (perm_of n seed)
+  | 'b' ->
+    let out = ref [] in
+    let q = Queue.create () in
+    Queue.add (0, n - 1) q;
+    while not (Queue.is_empty q) do
+      let (lo, hi) = Queue.pop q in
+      if lo <= hi then begin
+        let mid = lo + (hi - lo) / 2 in
+        out := mid :: !out;
+        Queue.add (lo, mid - 1) q; Queue.add (mid + 1, hi) q
+      end
+    done;
+    Some (List.rev !out)
+  | 'B' -> (match order_idx 'b' n seed with Some l -> Some (List.rev l) | None -> None)
+  | _ -> None
+
+let rec take m l = if m <= 0 then [] else match l with [] -> [] | x :: r -> x :: take (m - 1) r
+
+(* which ranks (of len keys) to remove, in order; depths only for s/p *)
+let removal_idx ord len keep seed (depths : unit -> int array) : int list =
+  let m = len - keep in
+  if m <= 0 || keep < 0 then [] else
+  let first pat = match order_idx pat len seed with Some l -> take m l | None -> [] in
+  match ord with
+  | 'l' -> first 'a' | 'h' -> first 'd' | 'o' -> first 'z'
+  | 'i' | 'b' | 'B' -> first ord
+  | 'r' -> take m (perm_of len seed)
+  | 'e' | 'E' ->
+    let kept = Array.make len false in
+    for j = 0 to keep - 1 do kept.(j * len / keep) <- true done;
+    let out = List.filter (fun i -> not kept.(i)) (List.init len (fun i -> i)) in
+    if ord = 'E' then List.rev out else out
+  | 's' | 'p' ->
+    let d = depths () in
+    let idx = List.init len (fun i -> i) in
+    let c = if ord = 's' then (fun a b -> compare d.(a) d.(b)) else (fun a b -> compare d.(b) d.(a)) in
+    take m (List.stable_sort c idx)
+  | _ -> []
+
+let max_big_keys = 20000
+let int_opt s = try Some (int_of_string s) with _ -> None
+let ord_letters = "lhoibBreEsp"
+let big_val k seed = ((((k * 7 + seed) mod 1000) + 1000) mod 1000) + 1
+
+type macro = MB of char * int * int * int * int | MD of char * int * int | MQ of int | MBad | MPrim
+let parse_macro natural op =
+  if op = "" then MPrim else
+  match op.[0] with
+  | 'B' ->
+    (match String.split_on_char ':' (String.sub op 1 (String.length op - 1)) with
+     | [p; lo; n; step; seed] when String.length p = 1 ->
+       (match int_opt lo, int_opt n, int_opt step, int_opt seed with
+        | Some lo, Some n, Some step, Some seed when n >= 0 && n <= max_big_keys && (n = 0 || order_idx p.[0] n seed <> None) ->
+          MB (p.[0], lo, n, step, seed)
+        | _ -> MBad)
+     | _ -> MBad)
+  | 'D' ->
+    (match String.split_on_char ':' (String.sub op 1 (String.length op - 1)) with
+     | [o; keep; seed] when String.length o = 1 && String.contains ord_letters o.[0] && not (natural && (o.[0] = 's' || o.[0] = 'p')) ->
+       (match int_opt keep, int_opt seed with
+        | Some keep, Some seed -> MD (o.[0], keep, seed)
+        | _ -> MBad)
+     | _ -> MBad)
+  | 'Q' ->
+    (match int_opt (String.sub op 1 (String.length op - 1)) with
+     | Some s when s >= 0 && s <= 64 -> MQ s
+     | _ -> MBad)
+  | _ -> MPrim
+
+let add_keys pat lo n step seed =
+  match order_idx pat n seed with Some idx -> List.map (fun j -> lo + step * j) idx | None -> []
+
+(* the depth limit of the replayed tree: HeightModel.limit_capped (extracted), remembered per
+   argument (its fuel is a unary number as large as the tree) *)
+let limit_tbl : (int * int, M.z) Hashtbl.t = Hashtbl.create 1024
+let limit_memo (b : M.z) (n : M.z) : M.z =
+  let key = (int_of_z b, int_of_z n) in
+  match Hashtbl.find_opt limit_tbl key with
+  | Some v -> v
+  | None -> let v = M.limit_capped b n in Hashtbl.add limit_tbl key v; v
+
 (* Map.String: "omap[" k:v k:v ... "]" with %v for keys and values; blanks shown as '_' *)
 let fmt_string kc vc = function
   | None -> "omap[]"
@@ -69,9 +196,9 @@ let fmt_string kc vc = function
 
 let show_keys kc = function [] -> "empty" | ks -> String.concat "," (List.map kc.show ks)
 
-let eval_gen (kc : 'k codec) (vc : 'v codec) (cf : 'k -> 'k -> int) kind ops =
+let eval_gen (kc : 'k codec) (vc : 'v codec) (cf : 'k -> 'k -> int) kind ops macro =
   let zcmp a b = z_of_int (cf a b) in
-  let limit = M.limit_capped in
+  let limit = limit_memo in
   let zk = kc.zero and zv = vc.zero in
   let items = ref [] in
   (try
@@ -88,6 +215,9 @@ let eval_gen (kc : 'k codec) (vc : 'v codec) (cf : 'k -> 'k -> int) kind ops =
     let push s = items := s :: !items in
     List.iter (fun op ->
       let (c, arg) = parse_op op in
+      match (match macro with Some f -> f m (String.make 1 c ^ arg) | None -> None) with
+      | Some (item, ed) -> if ed then edited (); push item
+      | None ->
       match c with
       | 's' ->
         (match String.index_opt arg '=' with
@@ -140,17 +270,92 @@ let eval_gen (kc : 'k codec) (vc : 'v codec) (cf : 'k -> 'k -> int) kind ops =
   with Fail s -> items := s :: !items);
   String.concat ";" (List.rev !items)
 
+(* probe() of scale.go on the model *)
+let probe_model zcmp m s =
+  let keys = match ok (M.mkeys m) with None -> [] | Some ks -> ks in
+  let n = List.length keys in
+  let dkey = dnew () and dval = dnew () and dget = dnew () and dabs = dnew () and dnext = dnew () and dprev = dnew ()
+  and dzig = dnew () and dre = dnew () in
+  let nv = ref 0 and nget = ref 0 and fb = ref "-" in
+  let ikey c = ok (M.ikey 0 0 m c) and ival c = ok (M.ivalue 0 0 m c) in
+  let key_or c = if M.ivalid c then ikey c else -1 and val_or c = if M.ivalid c then ival c else -1 in
+  List.iter (fun k ->
+    let it = ok (M.mseek zcmp 0 m k) in
+    if M.ivalid it && ikey it = k then incr nv else if !fb = "-" then fb := string_of_int k;
+    dadd dkey (ikey it); dadd dval (ival it);
+    (let (v, okb) = M.mget_ok zcmp 0 m k in if okb then begin incr nget; dadd dget v end else dadd dget (-1));
+    dadd dget (M.mget zcmp 0 m k);
+    dadd dabs (key_or (ok (M.mseek zcmp 0 m (k + 1))));
+    let c = ref it in
+    for _ = 1 to s do c := ok (M.inext m !c); dadd dnext (key_or !c); dadd dnext (val_or !c) done;
+    c := ok (M.mseek zcmp 0 m k);
+    for _ = 1 to s do c := ok (M.iprev m !c); dadd dprev (key_or !c); dadd dprev (val_or !c) done;
+    let cz = ref (ok (M.mseek zcmp 0 m k)) in
+    String.iter (fun ch -> cz := ok ((if ch = 'n' then M.inext else M.iprev) m !cz); dadd dzig (key_or !cz); dadd dzig (val_or !cz)) zigzag;
+    c := ok (M.iseek zcmp 0 m k);
+    dadd dre (key_or !c); dadd dre (val_or !c)) keys;
+  let sweep start mv =
+    let c = ref start and ks = ref [] and vs = ref [] and step = ref 0 in
+    while M.ivalid !c && !step < n + 2 do
+      ks := ikey !c :: !ks; vs := ival !c :: !vs; c := ok (mv m !c); incr step
+    done; (!ks, !vs) in
+  let (fk, fv) = sweep (ok (M.mfirst m)) M.inext in
+  let fwd = List.rev fk and vfwd = List.rev fv in
+  let (bwd, _) = sweep (ok (M.mlast m)) M.iprev in                  (* collected in reverse = the reversed list *)
+  let i = string_of_int in
+  "q/" ^ String.concat "/" [
+    "n=" ^ i (int_of_z (M.mlen m)); "keys=" ^ fmt_ints keys;
+    "nv=" ^ i !nv; "fb=" ^ !fb; "dkey=" ^ dstr dkey; "dval=" ^ dstr dval;
+    "nget=" ^ i !nget; "dget=" ^ dstr dget; "dabs=" ^ dstr dabs;
+    "dnext=" ^ dstr dnext; "dprev=" ^ dstr dprev; "dzig=" ^ dstr dzig; "dre=" ^ dstr dre;
+    "nfwd=" ^ i (List.length fwd); "dfwd=" ^ digest_of fwd; "dvfwd=" ^ digest_of vfwd;
+    "nbwd=" ^ i (List.length bwd); "dbwd=" ^ digest_of bwd ]
+
+(* the number of nodes on the path to each key, in in-order (what the harness measures as the
+   comparator calls of GetOK) *)
+let depths_of_model m : int array =
+  let out = ref [] in
+  let rec go d = function
+    | M.Leaf -> ()
+    | M.Node (l, _, r) -> go (d + 1) l; out := d :: !out; go (d + 1) r in
+  (match m with Some t -> go 1 t.M.root | None -> ());
+  Array.of_list (List.rev !out)
+
+(* B, D, Q on the model of a Map[int,int]: Some (item, edited) *)
+let int_macro natural cf m op =
+  let zcmp a b = z_of_int (cf a b) in
+  match parse_macro natural op with
+  | MPrim -> None
+  | MBad -> Some ("?", false)
+  | MB (pat, lo, n, step, seed) ->
+    let cnt = ref 0 in
+    List.iter (fun k ->
+      match M.mset zcmp limit_memo !m k (big_val k seed) with
+      | M.Ok (m', b) -> m := m'; if b then incr cnt
+      | M.Panic -> raise (Fail "panic:nil")
+      | r -> ignore (ok r)) (add_keys pat lo n step seed);
+    Some ("b" ^ string_of_int !cnt, true)
+  | MD (ord, keep, seed) ->
+    let keys = Array.of_list (match ok (M.mkeys !m) with None -> [] | Some ks -> ks) in
+    let cnt = ref 0 in
+    List.iter (fun j ->
+      let (m', b) = ok (M.mdelete zcmp 0 !m keys.(j)) in m := m'; if b then incr cnt)
+      (removal_idx ord (Array.length keys) keep seed (fun () -> depths_of_model !m));
+    Some ("d" ^ string_of_int !cnt, true)
+  | MQ s -> Some (probe_model zcmp !m s, false)
+
 let eval inp =
   match words inp with
   | "M" :: cs :: kind :: rest ->
-    eval_gen int_codec int_codec (cmp_of cs) kind (match rest with [o] -> split_on ';' o | _ -> [])
+    let cf = cmp_of cs in
+    eval_gen int_codec int_codec cf kind (match rest with [o] -> split_on ';' o | _ -> []) (Some (int_macro (cs = "n") cf))
   | "T" :: cs :: kind :: rest ->
-    eval_gen str_codec str_codec (str_cmp_of cs) kind (match rest with [o] -> split_on ';' o | _ -> [])
+    eval_gen str_codec str_codec (str_cmp_of cs) kind (match rest with [o] -> split_on ';' o | _ -> []) None
   | _ -> "?"
 
 (* ------------------------------------------------------------------ the property on the implementation's output *)
 
-let spec_gen (kc : 'k codec) (vc : 'v codec) (cf : 'k -> 'k -> int) kind ops out =
+let spec_gen (kc : 'k codec) (vc : 'v codec) (cf : 'k -> 'k -> int) kind ops out smacro =
   let zero = (kind <> "n") in
   (try
     let l = ref [] in                                  (* the reference: entries ascending by key *)
@@ -181,7 +386,18 @@ let spec_gen (kc : 'k codec) (vc : 'v codec) (cf : 'k -> 'k -> int) kind ops out
         let (c, arg) = parse_op op in
         let n = List.length !l in
         let continue = ref true in
+        (* 0: not a macro operation; 1: a macro operation, checked; 2: an operation the reference cannot follow (see int_smacro) *)
+        let mres = match smacro with
+          | Some f -> (try f zero l (String.make 1 c ^ arg) it with Stop_case -> continue := false; 1)
+          | None -> 0 in
         (match c with
+         | _ when mres = 1 -> edited ()
+         | _ when mres = 2 ->
+           (match c with
+            | 's' | 'd' | 'c' -> edited ()
+            | 'F' | 'L' | 'S' when String.length arg >= 1 && arg.[0] >= '0' && arg.[0] <= '3' ->
+              let r = Char.code arg.[0] - 48 in regs.(r) <- Some None; fresh.(r) <- false; touch r
+            | _ -> ())
          | 's' ->
            (match String.index_opt arg '=' with
             | Some i ->
@@ -253,13 +469,138 @@ let spec_gen (kc : 'k codec) (vc : 'v codec) (cf : 'k -> 'k -> int) kind ops out
     go ops (split_on ';' out); None
   with Fail s -> Some s)
 
+(* B, D, Q against the reference association list l (ascending by key), in plain OCaml: true when
+   op is one of them (the reference is updated), Fail when the implementation's item is not what the
+   reference gives.  Every field of a probe item is decided by the reference.  Exception: after a
+   Delete in real-depth order (s/p) the reference knows how many entries remain and that they are
+   among the previous ones ([sup]: l is a superset) until a probe prints the keys in full; meanwhile
+   a probe is checked for Len and for the agreement of its own parts, other operations are not checked. *)
+type sstate = { mutable sup : bool; mutable card : int; mutable lenient : bool }
+
+let int_smacro natural cf (st : sstate) zero (l : (int * int) list ref) op it =
+  let module Mp = Map.Make (struct type t = int let compare a b = let c = cf a b in if c < 0 then -1 else if c > 0 then 1 else 0 end) in
+  let failop msg = raise (Fail (Printf.sprintf "op %s: %s" op msg)) in
+  let to_map () = List.fold_left (fun m (k, v) -> Mp.add k v m) Mp.empty !l in
+  let is_panic = String.length it >= 5 && String.sub it 0 5 = "panic" in
+  if it = "hang" then failop "hang";
+  match parse_macro natural op with
+  | MPrim ->
+    (* iterators positioned while the reference could not follow stay unchecked until the next edit *)
+    let c = if op = "" then '?' else op.[0] in
+    if st.sup then (if is_panic then failop ("panic: " ^ it); 2)
+    else if st.lenient then begin
+      if c = 's' || c = 'd' || c = 'c' then (st.lenient <- false; 0)
+      else if String.contains "FLSnpeNP" c then (if is_panic then failop ("panic: " ^ it); 2)
+      else 0
+    end else 0
+  | MBad -> 1
+  | MB (_, _, n, _, _) when is_panic -> if zero && n > 0 then raise Stop_case else failop ("panic: " ^ it)
+  | _ when is_panic -> failop ("panic: " ^ it)
+  | MB (pat, lo, n, step, seed) ->
+    if zero && n > 0 then failop "Set on a zero Map did not panic";
+    let m = ref (to_map ()) and cnt = ref 0 in
+    List.iter (fun k -> if not (Mp.mem k !m) then incr cnt; m := Mp.add k (big_val k seed) (Mp.remove k !m)) (add_keys pat lo n step seed);
+    l := Mp.bindings !m;
+    if st.sup then st.card <- -1           (* which of the keys were new is not known *)
+    else if it <> "b" ^ string_of_int !cnt then failop (Printf.sprintf "Set reported %s new keys, the reference map gives %d" it !cnt);
+    st.lenient <- false; 1
+  | MD (ord, keep, seed) ->
+    let len = if st.sup then st.card else List.length !l in
+    if len >= 0 then begin
+      let mrem = if keep < 0 then 0 else max 0 (len - keep) in
+      if it <> "d" ^ string_of_int mrem then failop (Printf.sprintf "Delete reported %s present keys, the reference map gives %d" it mrem);
+      if st.sup || ((ord = 's' || ord = 'p') && mrem > 0) then begin st.sup <- true; st.card <- len - mrem end
+      else begin
+        let keys = Array.of_list (List.map fst !l) in
+        let idx = removal_idx ord len keep seed (fun () -> [||]) in
+        l := Mp.bindings (List.fold_left (fun m j -> Mp.remove keys.(j) m) (to_map ()) idx)
+      end
+    end;
+    st.lenient <- false; 1
+  | MQ s ->
+    let f = match String.split_on_char '/' it with
+      | "q" :: fs -> List.filter_map (fun x -> match String.index_opt x '=' with
+          | Some i -> Some (String.sub x 0 i, String.sub x (i + 1) (String.length x - i - 1)) | None -> None) fs
+      | _ -> failop "bad probe item" in
+    let get k = try List.assoc k f with Not_found -> failop ("probe item without " ^ k) in
+    let geti k = try int_of_string (get k) with Failure _ -> failop ("bad number in " ^ k) in
+    if get "fb" <> "-" then failop (Printf.sprintf "Seek(%s) is not a valid iterator at that key although Keys lists the key" (get "fb"));
+    (* a superset: resolved when the probe prints the keys in full *)
+    if st.sup then begin
+      let n = geti "n" in
+      if st.card >= 0 && n <> st.card then failop (Printf.sprintf "Len is %d, the reference map holds %d entries" n st.card);
+      st.card <- n;
+      let keys_txt = get "keys" in
+      if not (String.length keys_txt > 0 && keys_txt.[0] = '#') then begin
+        let ks = ints_of keys_txt in
+        let m = to_map () in
+        l := List.map (fun k -> match Mp.find_opt k m with
+          | Some v -> (k, v)
+          | None -> failop (Printf.sprintf "Keys lists %d, which the reference map never held at this point" k)) ks;
+        let rec asc = function (a, _) :: ((b, _) :: _ as r) -> cf a b < 0 && asc r | _ -> true in
+        if not (asc !l) then failop "Keys not strictly ascending";
+        st.sup <- false; st.lenient <- true
+      end
+    end;
+    if st.sup then begin
+      let n = st.card in
+      let same a b msg = if get a <> get b then failop (msg ^ " (" ^ a ^ " and " ^ b ^ " differ)") in
+      List.iter (fun k -> if geti k <> n then failop (Printf.sprintf "%s is %d for %d keys" k (geti k) n)) ["nv"; "nget"; "nfwd"; "nbwd"];
+      (match String.split_on_char '~' (get "keys") with
+       | [len; _; _; dg] ->
+         if len <> "#" ^ string_of_int n then failop "Keys yields a number of keys other than Len";
+         List.iter (fun k -> if get k <> dg then failop (k ^ " differs from the digest of Keys")) ["dkey"; "dfwd"; "dbwd"]
+       | _ -> failop "bad key list");
+      same "dval" "dvfwd" "the values at Seek(key) are not those of the First/Next sweep";
+      1
+    end else begin
+    let es = Array.of_list !l in
+    let n = Array.length es in
+    let keys = List.map fst !l and vals = List.map snd !l in
+    let m = to_map () in
+    let want k v msg = if get k <> v then failop (Printf.sprintf "%s (%s=%s, the reference map gives %s)" msg k (get k) v) in
+    want "n" (string_of_int n) "Len";
+    want "keys" (fmt_ints keys) "Keys";
+    want "nv" (string_of_int n) "number of keys whose Seek is valid at the key";
+    want "dkey" (digest_of keys) "the keys of Seek(key)";
+    want "dval" (digest_of vals) "the values of Seek(key)";
+    want "nget" (string_of_int n) "number of keys GetOK finds";
+    want "dget" (digest_of (List.concat_map (fun v -> [v; v]) vals)) "the values of GetOK and Get";
+    let dabs = dnew () and dnext = dnew () and dprev = dnew () and dre = dnew () and dzig = dnew () in
+    Array.iteri (fun i (k, v) ->
+      (let pos = ref i in
+       String.iter (fun ch ->
+         if !pos >= 0 then pos := (if ch = 'n' then (if !pos + 1 < n then !pos + 1 else -1) else !pos - 1);
+         if !pos >= 0 then begin dadd dzig (fst es.(!pos)); dadd dzig (snd es.(!pos)) end else begin dadd dzig (-1); dadd dzig (-1) end) zigzag);
+      dadd dabs (match Mp.find_first_opt (fun x -> cf x (k + 1) >= 0) m with Some (x, _) -> x | None -> -1);
+      for j = 1 to s do
+        if i + j < n then begin dadd dnext (fst es.(i + j)); dadd dnext (snd es.(i + j)) end else begin dadd dnext (-1); dadd dnext (-1) end
+      done;
+      for j = 1 to s do
+        if i - j >= 0 then begin dadd dprev (fst es.(i - j)); dadd dprev (snd es.(i - j)) end else begin dadd dprev (-1); dadd dprev (-1) end
+      done;
+      dadd dre k; dadd dre v) es;
+    want "dabs" (dstr dabs) "Seek(key+1) is not at the first key not less than it";
+    want "dnext" (dstr dnext) "Next from Seek(key) does not visit the following entries in order";
+    want "dprev" (dstr dprev) "Prev from Seek(key) does not visit the preceding entries in order";
+    want "dzig" (dstr dzig) "Next,Prev,Prev,Prev,Next,Next,Prev,Next from Seek(key) does not visit the neighbouring entries";
+    want "dre" (dstr dre) "Iter.Seek(key) on a moved iterator is not at the key";
+    want "nfwd" (string_of_int n) "First then Next: number of entries";
+    want "dfwd" (digest_of keys) "First then Next: keys";
+    want "dvfwd" (digest_of vals) "First then Next: values";
+    want "nbwd" (string_of_int n) "Last then Prev: number of entries";
+    want "dbwd" (digest_of keys) "Last then Prev: keys";
+    1
+    end
+
 let spec prop inp out =
   if prop <> "C04" then None else
   match words inp with
   | "M" :: cs :: kind :: rest ->
-    spec_gen int_codec int_codec (cmp_of cs) kind (match rest with [o] -> split_on ';' o | _ -> []) out
+    let cf = cmp_of cs in
+    spec_gen int_codec int_codec cf kind (match rest with [o] -> split_on ';' o | _ -> []) out (Some (int_smacro (cs = "n") cf { sup = false; card = 0; lenient = false }))
   | "T" :: cs :: kind :: rest ->
-    spec_gen str_codec str_codec (str_cmp_of cs) kind (match rest with [o] -> split_on ';' o | _ -> []) out
+    spec_gen str_codec str_codec (str_cmp_of cs) kind (match rest with [o] -> split_on ';' o | _ -> []) out None
   | _ -> None
 
 let () = run_main ~eval ~spec
